@@ -1,7 +1,10 @@
 //! vcheck: property-based testing / fuzzing harness for ruffle-rs/h263-rs.
 pub mod bits;
+pub mod dec;
 pub mod gen;
+pub mod gen_pic;
 pub mod model;
 pub mod props;
 pub mod runner;
+pub mod syntax;
 pub mod tables;
